@@ -1,6 +1,7 @@
 """C14 -- one-dimensional transportation is optimal and its rounding is memory-safe.
 Proof: coq/Properties_C14.v (plan validity, termination, assignment shape/unsplit, no out-of-bounds access for the
-repaired code, F11 witness for the unchanged one, certificate soundness, bounded optimality).
+repaired code in computeAssignment / convertAssignmentBack, F11 witness for the unchanged one, certificate soundness, optimality for all
+inputs without size bound (c14_optimal) + bounded cross-checks).
 Tie: EXACT diff of Transportation1d::balanceDemand/solve()/assign() (compiled from /repo's working tree) against the
 extracted model on exhaustive small-bounds + random instances; the same cases under ASan (bounds/pointer groups,
 no signed-overflow group) for the memory clause.  Search: the statement itself is evaluated on the C++ output
@@ -381,7 +382,7 @@ def vm_crosscheck(driver, lines):
 
 
 def run(ctx):
-    proof_ok, proof = common.proof_status(ctx, "C14")
+    proof_ok, proof = common.proof_status_all(ctx, "C14", ["gaps2_C14"])
     harness = common.build_harness("transp1d")
     asan = common.build_harness("transp1d", "asan-nosio")
     driver = common.build_driver("transp1d")
@@ -500,7 +501,8 @@ def run(ctx):
     return ctx.finish(LEVEL, cov, [
         "domain = the property's quantifier: non-negative supplies/demands, total supply <= total demand (possibly after balanceDemand), "
         ">= 1 source and >= 1 sink; outside it only equality of the thrown error with the model is compared",
-        "the 'sink of positive demand' clause presupposes that some sink has positive demand",
+        "the 'sink of positive demand' clause presupposes that some sink has positive demand (false on all-zero-demand instances for model and C++ alike; the oracle skips it there)",
+        "memory clause: c14_no_oob covers computeAssignment / convertAssignmentBack only; the sorter constructor, convert, run / push, flushPositions are observed under ASan (no _GLIBCXX_ASSERTIONS: over-reads inside reserved capacity are invisible); balanceDemand has no theorem",
         "optimality of the sweep itself is proved for all inputs of the model (c14_optimal: value-function invariant of the event sweep + "
         "lower bound for every valid plan; files coq/Transp1dOpt*.v); the bounded theorems, the proved checker on the C++ plans (n*m <= %d) and "
         "the independent min-cost flow (n*m <= 64) remain as per-run validation of the model<->code tie" % CP_LIMIT,
